@@ -105,6 +105,11 @@ def workloads(ctx: core.Ctx) -> list[dict]:
         {"name": "network", "keys": keys, "sessions": [
             {"ops": [["net_attest", "n1"], ["blob", "i1", 300], ["net_garbage", "n2"], ["blob", "i2", 300],
                      ["net_subject", "n3"], ["content", "empty", 0]], "end": "abandon"}]},
+        # wallet rows written by the real AttestationCommunity.on_attestation_complete with an application completion
+        # callback that returns / raises, each followed by identity-database traffic only; never closed
+        {"name": "callbacks", "keys": keys, "sessions": [
+            {"ops": [["complete", "k1", 300, "ok"], ["cred", "a", None, 0], ["complete", "k2", 300, "raises"],
+                     ["cred", "b", "a", None], ["content", "empty", 0]], "end": "abandon"}]},
         # a pseudonym with more tokens than TokenTree.unchained holds (100): 135 credentials in chain order are
         # set-up (a "setup" session is run, not crash-enumerated); three more are added under full enumeration, and
         # every reopen (including the recovering session's own) rebuilds the 135+ token tree
